@@ -40,7 +40,7 @@ ASSUMPTIONS = [
 def cases(draw):
     pkg = draw(convpkg.abstract_packages(max_models=8, max_ap=5, min_wav=3, max_wav=10))
     filters = draw(convpkg.filters_for(pkg['wav'], 2, 4, inside=True))
-    law = draw(gen.laws(8))
+    law = draw(gen.wide_laws(8))
     nf = len(filters)
     k = of.extinction_pattern(law['wav'], law['chi'], [f['central'] for f in filters])
     c = {'pkg': pkg, 'filters': filters, 'law': law, 'subdir': draw(st.sampled_from([0, 0, 2])),
